@@ -379,9 +379,11 @@ where
 					true,
 					self.doctest_mode,
 				);
+				// (no slate comes back when the address cannot be used or reached: the caller
+				// gets the reply slate itself, as without a return address)
 				match res {
-					Ok(s) => return Ok(s.unwrap()),
-					Err(_) => return Ok(ret_slate),
+					Ok(Some(s)) => return Ok(s),
+					Ok(None) | Err(_) => return Ok(ret_slate),
 				}
 			}
 			None => Ok(ret_slate),
